@@ -8,7 +8,7 @@ from fractions import Fraction
 from typing import Any, Dict, List, Optional, Set
 
 from ..effects import Analyzer
-from ..interp import ClassRef, Arr, Interp, Unsupported, Raised
+from ..interp import PyFunc, Obj, ClassRef, Arr, Interp, Unsupported, Raised
 from ..model import staged, AnalysisError, Model, src, walk_no_nested, \
     nested_functions
 
@@ -155,32 +155,66 @@ def _r1(model, rep):
        f"encoder weights {a} and decoder weights {b} differ (or are not "
        f"distinct powers of two): facet slots are decoded as other slots",
        dec.lineno)
-    # ---- npz prefixes
+    # ---- npz: names survive a save / load round trip (interpreted on
+    # names chosen to collide with the prefixes and with each other)
     sv, ld = mcls.methods["save_npz"], mcls.methods["load_npz"]
-    wp = set()
-    for n in ast.walk(sv.node):
-        if isinstance(n, ast.BinOp) and isinstance(n.op, ast.Add) and \
-                isinstance(n.left, ast.Constant) and isinstance(
-                    n.left.value, str):
-            wp.add(n.left.value)
-    rp = set()
-    for n in ast.walk(ld.node):
-        if isinstance(n, ast.Compare) and isinstance(n.left, ast.Subscript) \
-                and isinstance(n.left.slice, ast.Slice) and isinstance(
-                    n.comparators[0], ast.Constant):
-            hi = n.left.slice.upper.value
-            rp.add((n.comparators[0].value, hi))
-    cuts = {n.slice.lower.value for n in ast.walk(ld.node)
-            if isinstance(n, ast.Subscript) and isinstance(n.slice, ast.Slice)
-            and n.slice.lower is not None and n.slice.upper is None
-            and isinstance(n.slice.lower, ast.Constant)}
-    ok = (wp == {p for p, _ in rp} and all(len(p) == h for p, h in rp)
-          and cuts == {len(p) for p in wp} and len(wp) == 2)
-    _v(rep, R1, ok, "npz-prefixes",
-       f"prefixes written {sorted(wp)} are the ones tested and stripped on "
-       f"load", "Mesh.load_npz",
-       f"npz keys: written prefixes {sorted(wp)}, tested {sorted(rp)}, "
-       f"stripped lengths {sorted(cuts)}", ld.lineno)
+    bnames = ["left", "slab_lower", "b_", "b_b_x", "s_wall", "ab_c"]
+    snames = ["core", "glass_pane", "s_", "s_s_y", "b_zone", "xs_y"]
+    saved = {}
+
+    class NpzFile:
+        def __init__(self, d):
+            self.d = d
+
+        def skv_getattr(self, name):
+            if name == "files":
+                return list(self.d)
+            raise Unsupported("npz." + name)
+
+        def skv_getitem(self, k):
+            if k in self.d:
+                return self.d[k]
+            raise Raised("KeyError")
+
+    def hook(interp, name, args, kwargs, node):
+        if name == "numpy.savez":
+            saved.clear()
+            saved.update(kwargs)
+            return None
+        if name == "numpy.load":
+            return NpzFile(dict(saved))
+        return NotImplemented
+    mobj = Obj(mcls, {"doflocs": "P", "t": "T",
+                      "boundaries": {n: f"B:{n}" for n in bnames},
+                      "subdomains": {n: f"S:{n}" for n in snames},
+                      "_boundaries": {n: f"B:{n}" for n in bnames},
+                      "_subdomains": {n: f"S:{n}" for n in snames}})
+    built = {}
+
+    def ctor(a, k, n):
+        built["args"], built["kw"] = a, k
+        return "MESH"
+    try:
+        Interp(model, call_hook=hook).call(sv, ["file"], {}, self_obj=mobj)
+        it = Interp(model, call_hook=hook)
+        it.call(ld, ["file"], {}, self_obj=PyFunc(ctor))
+    except (Unsupported, Raised) as e:
+        raise AnalysisError(f"save_npz/load_npz: {e}")
+    kw = built.get("kw", {})
+    gb, gs = kw.get("_boundaries"), kw.get("_subdomains")
+    ok = (gb == {n: f"B:{n}" for n in bnames}
+          and gs == {n: f"S:{n}" for n in snames}
+          and list(built.get("args", [])[:2]) == ["P", "T"])
+    lostb = sorted(set(bnames) - set(gb or {}))
+    losts = sorted(set(snames) - set(gs or {}))
+    _v(rep, R1, ok, "npz-roundtrip",
+       f"{len(bnames)} boundary and {len(snames)} subdomain names (some "
+       f"containing the key prefixes) come back under the same names with "
+       f"their own arrays", "Mesh.load_npz",
+       f"npz round trip changes the tag names: boundaries "
+       f"{sorted(gb) if isinstance(gb, dict) else gb} (lost {lostb}), "
+       f"subdomains {sorted(gs) if isinstance(gs, dict) else gs} (lost "
+       f"{losts})", ld.lineno)
     # ---- dictionary keys
     td, fd = mcls.methods["to_dict"], mcls.methods["from_dict"]
     rets = [n for n in walk_no_nested(td.node) if isinstance(n, ast.Return)]
@@ -694,6 +728,12 @@ def run(model: Model, rep, tier: str) -> None:
 
 _IO = FIO
 MUTANTS = [
+    ("npz loader removes the prefix wherever it occurs in the name",
+     [(FM, "                key[2:]: data[key]\n                for key in "
+       "data.files\n                if key[:2] == 'b_'",
+       "                key.replace('b_', ''): data[key]\n                for "
+       "key in data.files\n                if key.startswith('b_')")],
+     "C17-R1"),
     ("decoder lists owning cells in the transposed traversal",
      (FM, "                cells = mask.nonzero()[1][order]",
       "                cells = mask.T.nonzero()[0][order]"), "C17-R3"),
@@ -777,6 +817,11 @@ MUTANTS = [
       "'subdomains': subdomains,"), "C17-R1"),
 ]
 TWINS = [
+    ("npz loader strips the prefix with startswith / len",
+     [(FM, "                key[2:]: data[key]\n                for key in "
+       "data.files\n                if key[:2] == 'b_'",
+       "                key[len('b_'):]: data[key]\n                for key "
+       "in data.files\n                if key.startswith('b_')")]),
     ("inverse hexahedron table built with sorted()",
      (_IO, "INV_HEX_MAPPING = [HEX_MAPPING.index(i)\n"
       "                   for i in range(len(HEX_MAPPING))]",
